@@ -1266,4 +1266,260 @@ theorem handleLogon_gap (s : Sess) (m : InMsg) (n : Int)
   exact ⟨_, by rw [k4.target], k4⟩
 
 
+/-! ## the stash drain -/
+
+/-- `Drained s st s' st'`: from `s` with stash `st`, entries were taken one at a time — each numbered exactly the number
+    expected at that moment — and handed to the in-session handler, ending in `s'` with `st'` left -/
+inductive Drained : Sess → List (Int × InMsg) → Sess → List (Int × InMsg) → Prop
+  | done (s : Sess) (st : List (Int × InMsg)) : Drained s st s st
+  | step {s s1 s2 : Sess} {st st2 : List (Int × InMsg)} {nx : SState} (n : Int) (m : InMsg)
+      (hmem : (n, m) ∈ st) (hn : n = s.store.target) (hproc : inSessionFixMsgIn s m = (s1, nx))
+      (hrest : Drained s1 (st.filter (·.1 != n)) s2 st2) : Drained s st s2 st2
+
+theorem find_target {st : List (Int × InMsg)} {t n : Int} {m : InMsg} (h : st.find? (·.1 == t) = some (n, m)) :
+    n = t ∧ (n, m) ∈ st ∧ (st.filter (·.1 != n)).length < st.length := by
+  have h1 := List.find?_some h
+  have h2 := List.mem_of_find?_eq_some h
+  have hn : n = t := by simpa using h1
+  refine ⟨hn, h2, ?_⟩
+  rw [List.length_filter_lt_length_iff_exists]
+  exact ⟨(n, m), h2, by simp⟩
+
+/-- the drain stops only when the session was logged off by a stashed message or when no stashed message carries the
+    expected number; everything it removed was processed in sequence -/
+theorem drainStash_spec (fuel : Nat) (s : Sess) (stash : List (Int × InMsg)) (last : SState) (hf : stash.length < fuel) :
+    Drained s stash (drainStash fuel s stash last).1 (drainStash fuel s stash last).2.2 ∧
+    ((drainStash fuel s stash last).2.1.loggedOn = false ∨
+     (drainStash fuel s stash last).2.2.find? (·.1 == (drainStash fuel s stash last).1.store.target) = none) := by
+  induction fuel generalizing s stash last with
+  | zero => omega
+  | succ k ih =>
+    unfold drainStash
+    split
+    · rename_i hnone
+      exact ⟨.done s stash, Or.inr hnone⟩
+    · rename_i n m hfind
+      obtain ⟨hn, hmem, hlen⟩ := find_target hfind
+      generalize hr : inSessionFixMsgIn s m = r
+      obtain ⟨s1, nx⟩ := r
+      dsimp only
+      by_cases hl : (!nx.loggedOn) = true
+      · rw [if_pos hl]
+        refine ⟨.step n m hmem hn hr (.done _ _), Or.inl ?_⟩
+        simpa using hl
+      · rw [if_neg hl]
+        obtain ⟨h1, h2⟩ := ih s1 (stash.filter (·.1 != n)) nx (by omega)
+        exact ⟨.step n m hmem hn hr h1, h2⟩
+
+
+/-- leaving recovery for normal operation: the triggering message was handled, then the stash was drained in sequence,
+    and what is left of the stash holds no message with the expected number -/
+theorem resendFixMsgIn_left (s : Sess) (stash : List (Int × InMsg)) (cur fin : Int) (m : InMsg)
+    (hres : (resendFixMsgIn s stash cur fin m).2 = .inSession) :
+    ∃ rest, Drained (inSessionFixMsgIn s m).1 (sharedStash (inSessionFixMsgIn s m).1 (inSessionFixMsgIn s m).2 stash)
+        (resendFixMsgIn s stash cur fin m).1 rest ∧
+      rest.find? (·.1 == (resendFixMsgIn s stash cur fin m).1.store.target) = none ∧
+      fin < (inSessionFixMsgIn s m).1.store.target := by
+  rw [resendFixMsgIn_eq] at hres ⊢
+  generalize inSessionFixMsgIn s m = r at hres ⊢
+  obtain ⟨s1, nx⟩ := r
+  dsimp only at hres ⊢
+  by_cases hl : (!nx.loggedOn) = true
+  · rw [if_pos hl] at hres
+    dsimp only at hres
+    rw [hres] at hl; cases hl
+  · rw [if_neg hl] at hres ⊢
+    have hb := resendBook_out s1 nx (sharedStash s1 nx stash) cur fin m
+    generalize resendBook s1 nx (sharedStash s1 nx stash) cur fin m = out at hb hres
+    cases hb with
+    | chunk _ _ => cases hres
+    | garbled _ => cases hres
+    | stay _ _ => cases hres
+    | drain h1 h2 =>
+      unfold drainPart at hres ⊢
+      have hsp := drainStash_spec ((sharedStash s1 nx stash).length + 1) s1 (sharedStash s1 nx stash) nx (by omega)
+      generalize drainStash ((sharedStash s1 nx stash).length + 1) s1 (sharedStash s1 nx stash) nx = d at hsp hres
+      obtain ⟨s2, nx2, rest⟩ := d
+      dsimp only at hsp hres ⊢
+      cases nx2 with
+      | resend a b c => cases hres
+      | inSession =>
+        refine ⟨rest, hsp.1, ?_, h2⟩
+        rcases hsp.2 with h | h
+        · cases h
+        · exact h
+      | _ => cases hres
+
+
+/-! ## draining a contiguous run -/
+
+/-- a message that will be accepted when its number is the expected one: plain kind, identity gates passed, no empty
+    field, not refused by the application -/
+structure Clean (s : Sess) (n : Int) (m : InMsg) : Prop where
+  kind : PlainKind m
+  bs : checkBeginString s m = none
+  comp : checkCompID s m = none
+  seq : getInt m 34 = .val n
+  valid : validate m = none
+  accepted : callbackVerdict m = none
+
+theorem Clean.congr {s s' : Sess} {n : Int} {m : InMsg} (h : Clean s n m) (hc : s'.cfg = s.cfg) : Clean s' n m :=
+  ⟨h.kind, by have := h.bs; unfold checkBeginString at this ⊢; rw [hc]; exact this,
+   by have := h.comp; unfold checkCompID at this ⊢; rw [hc]; exact this, h.seq, h.valid, h.accepted⟩
+
+/-- hand one message to the application and consume its number -/
+def deliver (s : Sess) (m : InMsg) : Sess := incrTarget (s.emit (cbObs s m))
+
+theorem deliver_target (s : Sess) (m : InMsg) : (deliver s m).store.target = s.store.target + 1 := rfl
+theorem deliver_cfg (s : Sess) (m : InMsg) : (deliver s m).cfg = s.cfg := rfl
+theorem deliver_st (s : Sess) (m : InMsg) : (deliver s m).st = s.st := rfl
+
+theorem inSessionFixMsgIn_clean (s : Sess) (m : InMsg) (h : Clean s s.store.target m)
+    (ht : (curResend s).isSome = true ∨ checkSendingTime s m = none) :
+    inSessionFixMsgIn s m = (deliver s m, .inSession) :=
+  inSessionFixMsgIn_plain s m h.kind h.bs h.comp ht h.seq h.valid h.accepted
+
+theorem drain_run (cnt : Nat) : ∀ (fuel : Nat) (s : Sess) (stash : List (Int × InMsg)) (last : SState),
+    (curResend s).isSome = true →
+    (∀ p ∈ stash, Clean s p.1 p.2) →
+    (∀ p ∈ stash, s.store.target ≤ p.1 ∧ p.1 < s.store.target + cnt) →
+    (∀ i : Nat, i < cnt → ∃ m, (s.store.target + i, m) ∈ stash) →
+    stash.length < fuel →
+    ∃ ms : List InMsg, ms.length = cnt ∧
+      (∀ (i : Nat) (h : i < ms.length), (s.store.target + i, ms[i]) ∈ stash) ∧
+      drainStash fuel s stash last = (ms.foldl deliver s, if cnt = 0 then last else .inSession, []) := by
+  induction cnt with
+  | zero =>
+    intro fuel s stash last _ _ hrange _ hf
+    have hnil : stash = [] := by
+      apply List.eq_nil_iff_forall_not_mem.2
+      intro p hp
+      have := hrange p hp
+      omega
+    subst hnil
+    refine ⟨[], rfl, ?_, ?_⟩
+    · intro i h; cases h
+    · cases fuel with
+      | zero => cases hf
+      | succ k => rfl
+  | succ cnt ih =>
+    intro fuel s stash last hcr hclean hrange hcover hf
+    cases fuel with
+    | zero => omega
+    | succ k =>
+      obtain ⟨m0, hm0⟩ := hcover 0 (by omega)
+      have hsome : (stash.find? (·.1 == s.store.target)).isSome = true := by
+        rw [List.find?_isSome]
+        exact ⟨_, hm0, by simp⟩
+      cases hfind : stash.find? (·.1 == s.store.target) with
+      | none => rw [hfind] at hsome; cases hsome
+      | some p =>
+        obtain ⟨n, m⟩ := p
+        obtain ⟨hn, hmem, hlen⟩ := find_target hfind
+        subst hn
+        have hcl : Clean s s.store.target m := hclean _ hmem
+        have hproc := inSessionFixMsgIn_clean s m hcl (Or.inl hcr)
+        have hcr' : (curResend (deliver s m)).isSome = true := by
+          rw [curResend_congr (deliver_st s m) (deliver_cfg s m)]; exact hcr
+        have hsub : ∀ p, p ∈ stash.filter (·.1 != s.store.target) → p ∈ stash ∧ p.1 ≠ s.store.target := by
+          intro p hp
+          simpa using hp
+        obtain ⟨ms, hlenms, hidx, hdrain⟩ := ih k (deliver s m) (stash.filter (·.1 != s.store.target)) .inSession hcr'
+          (by intro p hp; exact (hclean p (hsub p hp).1).congr (deliver_cfg s m))
+          (by
+            intro p hp
+            have h1 := hrange p (hsub p hp).1
+            have h2 := (hsub p hp).2
+            rw [deliver_target]
+            omega)
+          (by
+            intro i hi
+            obtain ⟨mi, hmi⟩ := hcover (i + 1) (by omega)
+            refine ⟨mi, ?_⟩
+            rw [deliver_target]
+            have e : s.store.target + 1 + (i : Int) = s.store.target + ((i + 1 : Nat) : Int) := by omega
+            rw [e]
+            simp only [List.mem_filter, bne_iff_ne, ne_eq]
+            exact ⟨hmi, by omega⟩)
+          (by omega)
+        refine ⟨m :: ms, by simp [hlenms], ?_, ?_⟩
+        · intro i h
+          cases i with
+          | zero => simpa using hmem
+          | succ j =>
+            have hj : j < ms.length := by simpa using h
+            have := (hsub _ (hidx j hj)).1
+            rw [deliver_target] at this
+            have e : s.store.target + 1 + (j : Int) = s.store.target + ((j + 1 : Nat) : Int) := by omega
+            rw [e] at this
+            simpa using this
+        · unfold drainStash
+          simp only [hfind, hproc, SState.loggedOn, Bool.not_true, Bool.false_eq_true, if_false, hdrain, List.foldl_cons]
+          simp
+
+
+theorem foldl_deliver_target (ms : List InMsg) (s : Sess) : (ms.foldl deliver s).store.target = s.store.target + ms.length := by
+  induction ms generalizing s with
+  | nil => simp
+  | cons m ms ih => simp only [List.foldl_cons, ih, deliver_target, List.length_cons]; omega
+
+/-- what the application saw, oldest first -/
+def callbacks (l : List Obs) : List Obs :=
+  l.reverse.filter fun o => match o with | .fromApp _ _ | .fromAdmin _ _ => true | _ => false
+
+/-- **the last missing message arrives**: recovery state with everything requested (`cur = 0`), the message numbered
+    `T = target ≥ fin` is clean, and the stash is the contiguous run `T+1 … T+cnt` of clean messages: the message and then
+    the whole stash are delivered in order, the session is back in normal operation expecting `T+cnt+1` -/
+theorem resend_complete (s : Sess) (stash : List (Int × InMsg)) (fin : Int) (m : InMsg) (cnt : Nat)
+    (h : curResend s = some (stash, 0, fin))
+    (hm : Clean s s.store.target m) (hg : getBool m 123 ≠ .garbled) (hfin : fin ≤ s.store.target)
+    (hclean : ∀ p ∈ stash, Clean s p.1 p.2)
+    (hrange : ∀ p ∈ stash, s.store.target + 1 ≤ p.1 ∧ p.1 < s.store.target + 1 + cnt)
+    (hcover : ∀ i : Nat, i < cnt → ∃ mi, (s.store.target + 1 + i, mi) ∈ stash) :
+    ∃ ms : List InMsg, ms.length = cnt ∧
+      (∀ (i : Nat) (hi : i < ms.length), (s.store.target + 1 + i, ms[i]) ∈ stash) ∧
+      fixMsgInCore s m = ((m :: ms).foldl deliver s, .inSession) := by
+  have hcr : (curResend s).isSome = true := by rw [h]; rfl
+  have hcr' : (curResend (deliver s m)).isSome = true := by
+    rw [curResend_congr (deliver_st s m) (deliver_cfg s m)]; exact hcr
+  obtain ⟨ms, hlen, hidx, hdrain⟩ := drain_run cnt (stash.length + 1) (deliver s m) stash .inSession hcr'
+    (fun p hp => (hclean p hp).congr (deliver_cfg s m))
+    (by intro p hp; rw [deliver_target]; exact hrange p hp)
+    (by intro i hi; rw [deliver_target]; exact hcover i hi)
+    (by omega)
+  refine ⟨ms, hlen, by intro i hi; have := hidx i hi; rw [deliver_target] at this; exact this, ?_⟩
+  rw [fixMsgInCore_rec s m stash 0 fin h, resendFixMsgIn_eq, inSessionFixMsgIn_clean s m hm (Or.inl hcr)]
+  simp only [SState.loggedOn, Bool.not_true, Bool.false_eq_true, if_false]
+  have hsh : sharedStash (deliver s m) .inSession stash = stash := rfl
+  rw [hsh]
+  have hb := resendBook_out (deliver s m) .inSession stash 0 fin m
+  generalize resendBook (deliver s m) .inSession stash 0 fin m = out at hb
+  cases hb with
+  | chunk hc _ => exact absurd rfl hc
+  | garbled hg' => exact absurd hg' hg
+  | stay _ h2 => rw [deliver_target] at h2; omega
+  | drain _ _ =>
+    unfold drainPart
+    rw [hdrain]
+    simp only [List.foldl_cons]
+    split <;> simp_all
+
+
+/-- the callbacks of a run of deliveries starting at expected number `t` -/
+def cbList (t : Int) : List InMsg → List Obs
+  | [] => []
+  | m :: ms => (if isAdminKind (kindOf m) then Obs.fromAdmin (kindOf m) (seqText m) else Obs.fromApp (seqText m) t) :: cbList (t + 1) ms
+
+theorem callbacks_deliver (s : Sess) (m : InMsg) :
+    callbacks (deliver s m).log = callbacks s.log ++ [if isAdminKind (kindOf m) then Obs.fromAdmin (kindOf m) (seqText m) else Obs.fromApp (seqText m) s.store.target] := by
+  unfold deliver incrTarget cbObs callbacks
+  by_cases hk : isAdminKind (kindOf m) = true <;> simp [hk, Sess.emit, Sess.setTarget, List.filter_append]
+
+theorem callbacks_foldl_deliver (ms : List InMsg) (s : Sess) :
+    callbacks (ms.foldl deliver s).log = callbacks s.log ++ cbList s.store.target ms := by
+  induction ms generalizing s with
+  | nil => simp [cbList]
+  | cons m ms ih =>
+    simp only [List.foldl_cons, ih, callbacks_deliver, deliver_target, cbList, List.append_assoc, List.singleton_append]
+
 end Qfx.Sess
